@@ -169,6 +169,7 @@ class Machine:
     meta: dict = field(default_factory=dict)
     filters: Filters | None = None
     dummy: Contract | None = None
+    depth_via: str = "cli"  # how the depth reaches halmos: "cli" (--invariant-depth) or "annotation" (@custom:halmos on the invariant function)
 
 
 def gen_machine(rnd: random.Random, depth: int | None = None, fns: list[TFn] | None = None, inv: tuple | None = None,
@@ -300,6 +301,18 @@ def refuted_probe_machine(first_falls_through: bool = True) -> Machine:
         body += [("LABEL", "p1")] + panic(1)
     f = TFn("touch()", body, 0, desc="assert(block.timestamp>=last); last=block.timestamp; x=x+1; assert(x<2)")
     return gen_machine(random.Random(0), depth=2, fns=[f], inv=("x", 7, 0))
+
+
+def counter_machine(depth: int) -> Machine:
+    """inc(): x = x + 1; invariant x != depth: broken by exactly `depth` calls.  The depth is given by a function-level
+    annotation (`@custom:halmos --invariant-depth N`), not on the command line."""
+    f = TFn("inc()", _set(0, [("PUSH", 0), "SLOAD", ("PUSH", 1), "ADD"]) + ["STOP"], 0, desc="x=x+1")
+    m = gen_machine(random.Random(0), depth=depth, fns=[f], inv=("x", depth, 0))
+    m.depth_via = "annotation"
+    for fn in m.test.fns:
+        if fn.sig == "invariant_machine()":
+            fn.devdoc = f"--invariant-depth {depth}"
+    return m
 
 
 def merge_machine() -> Machine:
